@@ -1,6 +1,7 @@
 package rules
 
 import (
+	"strconv"
 	"fmt"
 	"go/ast"
 	"go/token"
@@ -972,4 +973,145 @@ func streamDecodedToEOF(c *eng.Ctx, r *eng.RuleCtx, key string) {
 		}
 	}
 	r.Check(ok && nret > 0, f.Key+" decodes-to-EOF", pos, "success is returned only after the decoder reported io.EOF", "the stream decoder can report success without having reached the end of the input (the loop stops for another reason than io.EOF): a malformed tail - a stray `}` or `]` after a complete document - is silently ignored and the documents before it are applied")
+}
+
+// finalStoreIs decides, for the executions that start after `start` under the query's assumptions (NonNil, Assume), whether
+// the field fld holds the string constant `want` at every exit of the function: the last store to the field on each
+// path must be `want`, either directly (`x.F = want`) or through a local (`x.F = l` whose last store on the path was
+// `l = want`, also in a parallel assignment). A path without any store, or one whose last store is another value,
+// is reported with its position.
+func finalStoreIs(g *eng.Graph, info *types.Info, start *eng.GNode, base eng.Query, fld *types.Var, want string) (bool, token.Pos, string) {
+	type store struct {
+		n   *eng.GNode
+		val ast.Expr
+	}
+	storesTo := func(match func(ast.Expr) bool) []store {
+		var out []store
+		for _, n := range g.Nodes {
+			switch t := n.Node.(type) {
+			case *ast.AssignStmt:
+				if len(t.Lhs) == len(t.Rhs) {
+					for i, l := range t.Lhs {
+						if match(l) {
+							out = append(out, store{n, t.Rhs[i]})
+						}
+					}
+				} else {
+					for _, l := range t.Lhs {
+						if match(l) {
+							out = append(out, store{n, nil})
+						}
+					}
+				}
+			case *ast.ValueSpec:
+				for i, nm := range t.Names {
+					if match(nm) {
+						if len(t.Values) == len(t.Names) {
+							out = append(out, store{n, t.Values[i]})
+						} else {
+							out = append(out, store{n, nil})
+						}
+					}
+				}
+			case *ast.DeclStmt:
+				if gd, ok := t.Decl.(*ast.GenDecl); ok {
+					for _, sp := range gd.Specs {
+						if vs, ok := sp.(*ast.ValueSpec); ok {
+							for i, nm := range vs.Names {
+								if match(nm) {
+									if len(vs.Values) == len(vs.Names) {
+										out = append(out, store{n, vs.Values[i]})
+									} else {
+										out = append(out, store{n, nil})
+									}
+								}
+							}
+						}
+					}
+				}
+			}
+		}
+		return out
+	}
+	direct := storesTo(func(e ast.Expr) bool { return eng.IsField(info, e, fld) })
+	isDirect := map[*eng.GNode]bool{}
+	for _, s := range direct {
+		isDirect[s.n] = true
+	}
+	q := func(from *eng.GNode, avoid map[*eng.GNode]bool) map[*eng.GNode]bool {
+		qq := base
+		qq.From, qq.FromAt, qq.FromEntry = []*eng.GNode{from}, nil, false
+		qq.AvoidNode = func(n *eng.GNode) bool { return avoid[n] }
+		return g.Reach(qq)
+	}
+	exitIn := func(m map[*eng.GNode]bool) bool {
+		for n := range m {
+			if n.Exit {
+				return true
+			}
+		}
+		return false
+	}
+	fromStart := q(start, isDirect)
+	if exitIn(fromStart) {
+		return false, start.Node.Pos(), "a path reaches the end of the function without any store to the field"
+	}
+	for _, s := range direct {
+		if !fromStart[s.n] && !q(start, nil)[s.n] {
+			continue
+		}
+		// is this store the last one on some path?
+		if !exitIn(q(s.n, isDirect)) {
+			continue
+		}
+		if s.val != nil {
+			if c, isC := eng.ConstStr(info, s.val); isC {
+				if c != want {
+					return false, s.n.Node.Pos(), "the last store is the constant " + strconv.Quote(c)
+				}
+				continue
+			}
+		}
+		id, isId := ast.Unparen(s.val).(*ast.Ident)
+		lv, _ := eng.SelObj(info, id).(*types.Var)
+		if s.val == nil || !isId || lv == nil || lv.IsField() {
+			return false, s.n.Node.Pos(), "the last store is a value that is not a constant or a local"
+		}
+		local := storesTo(func(e ast.Expr) bool {
+			x, ok := ast.Unparen(e).(*ast.Ident)
+			return ok && eng.SelObj(info, x) == types.Object(lv)
+		})
+		isLocal := map[*eng.GNode]bool{}
+		for _, t := range local {
+			isLocal[t.n] = true
+		}
+		// the copy reached from the start without any store to the local: its initial value
+		if q(start, isLocal)[s.n] {
+			declaredBefore := false
+			for _, t := range local {
+				if t.val == nil && !q(start, nil)[t.n] {
+					declaredBefore = true
+				}
+			}
+			_ = declaredBefore
+			return false, s.n.Node.Pos(), "the stored local " + lv.Name() + " can still hold the value it had before the run"
+		}
+		reachable := q(start, nil)
+		for _, t := range local {
+			if !reachable[t.n] {
+				continue
+			}
+			if !q(t.n, isLocal)[s.n] {
+				continue // overwritten before the copy on every path
+			}
+			c, isC := "", false
+			if t.val != nil {
+				c, isC = eng.ConstStr(info, t.val)
+			}
+			if !isC || c != want {
+				return false, t.n.Node.Pos(), "the stored local " + lv.Name() + " is assigned another value here and then copied into the field"
+			}
+		}
+	}
+	return true, token.NoPos, ""
 }
